@@ -792,7 +792,7 @@ func runC16(c *Ctx) {
 			c16Topology(c, 2000+i, f.total, f.steps, f.fu, false)
 		}
 	}
-	nSeq := c.Pick(32, 300)
+	nSeq := c.Pick(32, 1500)
 	for i := 0; i < nSeq; i++ {
 		j := next()
 		if !c.Mine(j) {
@@ -833,22 +833,22 @@ func runC16(c *Ctx) {
 		}
 	}
 	faults := []string{"kill-pooled", "kill-host", "kill-control", "kill-all", "mute-pooled", "mute-control", "stop-all-restart-one"}
-	for i := 0; i < c.Pick(28, 280); i++ {
+	for i := 0; i < c.Pick(28, 1400); i++ {
 		if j := next(); c.Mine(j) {
 			c16Heal(c, i, 1+i%4, 1+(i/4)%2, faults[i%len(faults)])
 		}
 	}
-	for i := 0; i < c.Pick(3, 30); i++ {
+	for i := 0; i < c.Pick(3, 150); i++ {
 		if j := next(); c.Mine(j) {
 			c16Outage(c, i)
 		}
 	}
-	for i := 0; i < c.Pick(2, 20); i++ {
+	for i := 0; i < c.Pick(2, 100); i++ {
 		if j := next(); c.Mine(j) {
 			c16RefreshWithEvent(c, i, []string{"local-query", "peers-query"}[i%2])
 		}
 	}
-	for i := 0; i < c.Pick(1, 6); i++ {
+	for i := 0; i < c.Pick(1, 30); i++ {
 		if j := next(); c.Mine(j) {
 			c16Readiness(c, i)
 		}
